@@ -2566,9 +2566,10 @@ def ms_expression_requests(res, rec):
 # stack (none)).  The setup models do not have them: these scenarios are run on the real code only and judged by the
 # oracle alone (counted under real-code-only:...)
 
-def run_scenario_local(world, requests, env0, locals_):
+def run_scenario_local(world, requests, env0, locals_, tables=None):
     """child: as run_scenario, every request through the command-line front end; a request with "dir": NAME is
-    setup -r <scratch>/local/NAME; locals_: NAME -> table lines of the undeclared product living there"""
+    setup -r <scratch>/local/NAME; locals_: NAME -> table lines of the undeclared product living there (None: the
+    directory has no ups/NAME.table); a request with "table": T adds -m <scratch>/tables/T.table (tables: T -> lines)"""
     common.import_eups()
     import contextlib
     import io
@@ -2577,8 +2578,13 @@ def run_scenario_local(world, requests, env0, locals_):
         stack, userdata = materialise(work, world)
         for name, lines in locals_.items():
             d = os.path.join(work, "local", name)
-            os.makedirs(os.path.join(d, "ups"))
-            with open(os.path.join(d, "ups", name + ".table"), "w") as f:
+            os.makedirs(os.path.join(d, "ups") if lines is not None else d)
+            if lines is not None:
+                with open(os.path.join(d, "ups", name + ".table"), "w") as f:
+                    f.write("\n".join(lines) + "\n")
+        for tname, lines in (tables or {}).items():
+            os.makedirs(os.path.join(work, "tables"), exist_ok=True)
+            with open(os.path.join(work, "tables", tname + ".table"), "w") as f:
                 f.write("\n".join(lines) + "\n")
         import eups.setupcmd
         base = {"EUPS_PATH": stack, "EUPS_USERDATA": userdata, "EUPS_FLAVOR": FLAVOR, "EUPS_SHELL": "sh", "HOME": "/root"}
@@ -2593,6 +2599,8 @@ def run_scenario_local(world, requests, env0, locals_):
             args = cli_args(rq)
             if rq.get("dir"):
                 args = args[:2] + ["-r", os.path.join(work, "local", rq["dir"])] + args[2:]
+            if rq.get("table"):
+                args = args[:2] + ["-m", os.path.join(work, "tables", rq["table"] + ".table")] + args[2:]
             out, err = io.StringIO(), io.StringIO()
             try:
                 with contextlib.redirect_stdout(out), contextlib.redirect_stderr(err):
@@ -2632,7 +2640,8 @@ def gen_scenario_local(rng):
 
 
 def run_scenarios_local(ctx, scenarios, oracle, nproc=14):
-    results = common.par_map(run_scenario_local, [(s["world"], s["requests"], s["env0"], s["locals"]) for s in scenarios], nproc=nproc)
+    results = common.par_map(run_scenario_local, [(s["world"], s["requests"], s["env0"], s["locals"], s.get("tables"))
+                                                  for s in scenarios], nproc=nproc)
     for s, r in zip(scenarios, results):
         if r[0] != "ok":
             raise RuntimeError("local scenario child failed: %r" % (str(r)[-1500:],))
